@@ -11,7 +11,7 @@ let pc_name (p : M.pc) : string =
   | M.SStore -> "SStore" | M.SSpawn -> "SSpawn" | M.SCas -> "SCas" | M.SUnlock -> "SUnlock"
   | M.DTry -> "DTry" | M.DCas -> "DCas" | M.DLock -> "DLock" | M.CLock -> "CLock"
   | M.MStore -> "MStore" | M.MDrain -> "MDrain" | M.MLoad -> "MLoad" | M.MCas -> "MCas"
-  | M.MStoreReq -> "MStoreReq" | M.MUnlock -> "MUnlock" | M.RLoad0 -> "RLoad" | M.Done -> "Done"
+  | M.MStoreReq -> "MStoreReq" | M.MUnlock -> "MUnlock" | M.RLoad0 -> "RLoad" | M.Done -> "Done" | M.RdLoad -> "RdLoad"
 
 (* does the implementation's position agree with the model's program counter? *)
 let agrees (impl : string) (p : M.pc) (lock_held : bool) : bool =
@@ -39,7 +39,7 @@ let run (path : string) : unit =
       | _ when !dead -> ()
       | [ "N"; k ] ->
           count "threads_started";
-          let p = if k = "W" then M.WPush else M.CLock in
+          let p = if k = "W" then M.WPush else if k = "R" then M.RdLoad else M.CLock in
           s := M.add_thread !s p;
           s := M.macro_step !s (nat_of_int (nthreads () - 1))
       | [ "S"; i ] ->
